@@ -13,6 +13,8 @@ An expression is a JSON-able nested list:
     ["get", kind, e]                row slicing: "i" "sl" "st" "ix"
     ["fn", name, e]                 function library (name from FUNCS)
     ["max", l, r]                   functions.maximum
+    ["share", w, body]              DAG: w is evaluated once, every ["W"] inside body is
+                                    that very object (the sub-result is used repeatedly)
 
 The oracle (``Oracle``) never touches porepy or scipy: it evaluates the expression on
 complex numpy arrays of shape (m, K), column 0 being the real point and column j the
@@ -120,31 +122,37 @@ def fn_out_size(name: str, m: int):
 # ----------------------------------------------------------------------------- static
 
 
-def size_of(e, n):
+def size_of(e, n, wsize=None):
     """Static size of an expression (None for scalars / size-polymorphic arrays);
     raises ValueError for inadmissible (shape-inconsistent) expressions."""
     t = e[0]
     if t in ("X", "Y"):
         return n
+    if t == "W":
+        if wsize is None:
+            raise ValueError("W outside share")
+        return wsize
+    if t == "share":
+        return size_of(e[2], n, size_of(e[1], n, wsize))
     if t in ("c", "ci", "af", "ai"):
         return None
     if t == "neg":
-        return size_of(e[1], n)
+        return size_of(e[1], n, wsize)
     if t in ("bin", "max"):
         l, r = (e[2], e[3]) if t == "bin" else (e[1], e[2])
-        sl, sr = size_of(l, n), size_of(r, n)
+        sl, sr = size_of(l, n, wsize), size_of(r, n, wsize)
         if sl is None and sr is None:
             raise ValueError("no AD operand")
         if sl is not None and sr is not None and sl != sr:
             raise ValueError("size mismatch")
         return sl if sl is not None else sr
     if t == "mm":
-        m = size_of(e[4], n)
+        m = size_of(e[4], n, wsize)
         return m if e[2] == "sq" else 2
     if t == "get":
-        return get_size(e[1], size_of(e[2], n))
+        return get_size(e[1], size_of(e[2], n, wsize))
     if t == "fn":
-        s = fn_out_size(e[1], size_of(e[2], n))
+        s = fn_out_size(e[1], size_of(e[2], n, wsize))
         if s is None or s == 0:
             raise ValueError("size not divisible")
         return s
@@ -153,7 +161,7 @@ def size_of(e, n):
 
 def is_ad(e) -> bool:
     t = e[0]
-    if t in ("X", "Y"):
+    if t in ("X", "Y", "W"):
         return True
     if t in ("c", "ci", "af", "ai"):
         return False
@@ -168,7 +176,7 @@ def ops_in(e, acc=None) -> set:
         acc.add(e[1])
     elif t == "fn":
         acc.add(e[1])
-    elif t in ("neg", "mm", "get", "max"):
+    elif t in ("neg", "mm", "get", "max", "share"):
         acc.add(t)
     for c in e[1:]:
         if isinstance(c, list):
@@ -178,8 +186,10 @@ def ops_in(e, acc=None) -> set:
 
 def show(e) -> str:
     t = e[0]
-    if t in ("X", "Y"):
+    if t in ("X", "Y", "W"):
         return t
+    if t == "share":
+        return f"[W := {show(e[1])}; {show(e[2])}]"
     if t == "c":
         return repr(float(e[1]))
     if t == "ci":
@@ -361,6 +371,11 @@ class Oracle:
             return self.X
         if t == "Y":
             return self.Y
+        if t == "W":
+            return self.W
+        if t == "share":
+            self.W = self.ev(e[1])
+            return self.ev(e[2])
         if t == "c":
             return float(e[1])
         if t == "ci":
